@@ -321,24 +321,44 @@ func guardB(f func() byte) (b byte) {
 }
 
 // Reference computes the reference table of a spec: every operation evaluated
-// sequentially, by one goroutine, on freshly parsed private values.
-func Reference(spec *Spec) (Exp, error) {
+// sequentially, by one goroutine, on freshly parsed private values. With
+// reverse set the operations are evaluated in the opposite order (last task
+// first, last operation first, pool observation before everything else); the
+// table is laid out identically, so that two processes evaluating the same
+// operations after different histories can be compared entry by entry.
+func Reference(spec *Spec, reverse bool) (Exp, error) {
 	ecos, err := resolveEcos(spec)
 	if err != nil {
 		return Exp{}, err
 	}
 	fv := &freshView{spec: spec, ecos: ecos}
 	var exp Exp
-	for i := range spec.Prewarm {
-		exp.Pre = append(exp.Pre, evalOp(&spec.Prewarm[i], ecos, fv))
-	}
+	exp.Pre = make([]string, len(spec.Prewarm))
 	exp.Ops = make([][]string, len(spec.Tasks))
 	for t, prog := range spec.Tasks {
 		exp.Ops[t] = make([]string, len(prog))
-		for i := range prog {
+	}
+	if !reverse {
+		for i := range spec.Prewarm {
+			exp.Pre[i] = evalOp(&spec.Prewarm[i], ecos, fv)
+		}
+		for t, prog := range spec.Tasks {
+			for i := range prog {
+				exp.Ops[t][i] = evalOp(&prog[i], ecos, fv)
+			}
+		}
+		exp.Pool = observePool(spec, ecos, fv)
+		return exp, nil
+	}
+	exp.Pool = observePool(spec, ecos, fv)
+	for t := len(spec.Tasks) - 1; t >= 0; t-- {
+		prog := spec.Tasks[t]
+		for i := len(prog) - 1; i >= 0; i-- {
 			exp.Ops[t][i] = evalOp(&prog[i], ecos, fv)
 		}
 	}
-	exp.Pool = observePool(spec, ecos, fv)
+	for i := len(spec.Prewarm) - 1; i >= 0; i-- {
+		exp.Pre[i] = evalOp(&spec.Prewarm[i], ecos, fv)
+	}
 	return exp, nil
 }
